@@ -1,2 +1,162 @@
-From PK Require Import Batch.Generic Batch.Store Batch.Cases.
-Theorem c08_placeholder : True. Proof. exact I. Qed.
+(* C08 - batch results are complete and failed items leave no trace.
+   Model: Batch/Generic.v (process_request / _process_batch, generic in the handler) and
+   Batch/Store.v (store, per-batch database session, handlers); tied to
+   kmip/services/server/engine.py by harness/c08.py on every run. *)
+From Coq Require Import ZArith List Bool.
+From PK Require Import Batch.Generic Batch.GenericProofs Batch.Store Batch.StoreProofs.
+Import ListNotations.
+Open Scope Z_scope.
+
+(* "The response contains one result per processed batch item, in request order, each
+   echoing its operation and batch item ID." *)
+Theorem results_prefix : forall st h its rs st',
+    process st h its = (inr rs, st') ->
+    (length rs <= length its)%nat /\
+    forall i r, nth_error rs i = Some r ->
+                exists it, nth_error its i = Some it /\ r_op r = it_op it /\ r_bid r = it_bid it.
+Proof.
+  intros st h its rs st' H.
+  destruct (process_results_c _ _ _ _ _ H) as [_ [_ [s' [p' [Hr _]]]]].
+  split.
+  - exact (proj1 (run_prefix_c _ _ _ _ _ _ _ _ Hr)).
+  - intros i r Hn. exact (results_prefix_c _ _ _ _ _ _ _ _ _ _ Hr Hn).
+Qed.
+Print Assumptions results_prefix.
+
+(* "Processing stops at the first failed item unless the client asked to continue." *)
+Theorem stop_on_first_failure : forall st h its rs st',
+    process st h its = (inr rs, st') ->
+    if continues h then length rs = length its
+    else (forallb r_ok rs = true /\ length rs = length its) \/
+         (exists pre r, rs = pre ++ [r] /\ forallb r_ok pre = true /\ r_ok r = false /\ (length rs <= length its)%nat).
+Proof.
+  intros st h its rs st' H.
+  destruct (process_results_c _ _ _ _ _ H) as [_ [_ [s' [p' [Hr _]]]]].
+  destruct (continues h).
+  - exact (run_continue_all_c _ _ _ _ _ _ _ Hr).
+  - exact (run_stop_shape_c _ _ _ _ _ _ _ Hr).
+Qed.
+Print Assumptions stop_on_first_failure.
+
+(* "The ID placeholder lets a later item address the object an earlier item of the same
+   batch created": after a successful creating item c, and any items in between that are
+   not creating items, the placeholder holds the new identifier and an identifier-less
+   item is processed exactly like the same item naming that identifier. *)
+Theorem placeholder_within_batch : forall h s p c s1 p1 mid it s2 p2,
+    creating (it_body c) = true -> handle h s p c = (OK, s1, p1) ->
+    forallb (fun m => negb (creating (it_body m))) mid = true ->
+    exec session body handle h s1 p1 mid = (s2, p2) ->
+    creating (it_body it) = false ->
+    p2 = Some (next (working s)) /\
+    handle h s2 p2 it =
+    handle h s2 p2 {| it_op := it_op it; it_bid := it_bid it; it_body := with_target (next (working s)) (it_body it) |}.
+Proof. exact placeholder_within_batch_thm. Qed.
+Print Assumptions placeholder_within_batch.
+
+(* ... and the identifier it holds is the one of an object that now exists, owned by the requester *)
+Theorem placeholder_names_created_object : forall h s p it s' p',
+    creating (it_body it) = true -> handle h s p it = (OK, s', p') ->
+    p' = Some (next (working s)) /\
+    exists o, o_uid o = next (working s) /\ o_owner o = h_user h /\
+              working s' = insert o (working s) /\ committed s' = working s'.
+Proof. exact creating_sets_placeholder. Qed.
+Print Assumptions placeholder_names_created_object.
+
+(* the placeholder starts empty in every request (engine.py l.212): an identifier-less first item fails *)
+Example placeholder_starts_empty :
+  forall st h, check_header h = None ->
+  process st h [Build_item 10 None (BGet None)] = (inr [{| r_op := 10; r_bid := None; r_ok := false; r_reason := R_NOT_FOUND |}], st).
+Proof. intros st h Hh. unfold process, process_request. rewrite Hh. simpl. destruct (continues h); reflexivity. Qed.
+
+(* "A batch item that reports failure leaves the stored objects exactly as they were":
+   neither the committed store, nor the working state of the shared session, nor the
+   placeholder change (so that no later commit in the same batch can publish anything
+   the failed item did). *)
+Theorem fail_no_trace : forall h s p it r s' p',
+    handle h s p it = (Fail r, s', p') -> s' = s /\ p' = p.
+Proof. exact handle_fail_frame. Qed.
+Print Assumptions fail_no_trace.
+
+(* the session carries no unpublished change from one item to the next *)
+Theorem session_never_dirty : forall st h its rs st',
+    process st h its = (inr rs, st') ->
+    exists s' p', run_batch h (continues h) (open_session st) None its = (rs, s', p') /\ working s' = st' /\ committed s' = st'.
+Proof. exact process_clean. Qed.
+Print Assumptions session_never_dirty.
+
+Theorem all_failed_no_trace : forall st h its rs st',
+    process st h its = (inr rs, st') -> forallb (fun r => negb (r_ok r)) rs = true -> st' = st.
+Proof. exact process_all_failed_no_trace_c. Qed.
+Print Assumptions all_failed_no_trace.
+
+(* "... and does not disturb later items": the same request without the failed items gets
+   the same answers for the remaining items and ends in the same store. *)
+Theorem later_items_undisturbed : forall st h its rs st',
+    process st h its = (inr rs, st') ->
+    process st h (succeeded body its rs) = (inr (filter r_ok rs), st').
+Proof. exact process_without_failed_c. Qed.
+Print Assumptions later_items_undisturbed.
+
+(* "Every item that was executed has its result reported - no operation takes effect
+   without the client being told": (1) a request-level error leaves the store untouched,
+   on every path that raises one; (2) otherwise the final store is the effect of exactly
+   the items that have a result. *)
+Theorem no_unreported_effect : forall st h its e st',
+    process st h its = (inl e, st') -> st' = st.
+Proof. exact request_error_no_effect_c. Qed.
+Print Assumptions no_unreported_effect.
+
+Theorem request_error_paths_no_effect : forall st h its,
+    (ver_supported (h_ver h) = false -> process st h its = (inl EVersion, st)) /\
+    (forall t, ver_supported (h_ver h) = true -> h_ts h = Some t -> h_now h < t -> process st h its = (inl EFuture, st)) /\
+    (forall t, ver_supported (h_ver h) = true -> h_ts h = Some t -> t <= h_now h -> 60 <= h_now h - t ->
+               process st h its = (inl EStale, st)) /\
+    (ver_supported (h_ver h) = true -> ts_ok h = true -> async_on h = true -> process st h its = (inl EAsync, st)) /\
+    (ver_supported (h_ver h) = true -> ts_ok h = true -> async_on h = false -> undo_on h = true ->
+               process st h its = (inl EUndo, st)) /\
+    (check_header h = None -> (1 < length its)%nat -> (exists it, In it its /\ it_bid it = None) ->
+               process st h its = (inl ENoBid, st)).
+Proof. exact (request_error_paths session store body open_session close_session handle). Qed.
+Print Assumptions request_error_paths_no_effect.
+
+Theorem effects_are_reported : forall st h its rs st',
+    process st h its = (inr rs, st') ->
+    st' = committed (fst (exec session body handle h (open_session st) None (firstn (length rs) its))).
+Proof.
+  intros st h its rs st' H.
+  destruct (process_results_c _ _ _ _ _ H) as [_ [_ [s' [p' [Hr ->]]]]].
+  now rewrite (run_exec_c _ _ _ _ _ _ _ _ Hr).
+Qed.
+Print Assumptions effects_are_reported.
+
+(* ---- the hypotheses are satisfiable by non-trivial inputs; the model can tell the difference ---- *)
+Example mixed_batch_example :
+  exists rs st', process demo_store demo_header demo_items = (inr rs, st') /\
+                 map r_ok rs = [false; true] /\ option_map o_state (lookup 1 st') = Some S_DEACT /\
+                 lookup 2 st' <> None /\ lookup 2 demo_store = None.
+Proof. eexists. eexists. vm_compute. repeat split; discriminate. Qed.
+
+Example request_error_example :
+  process demo_store demo_header
+          [Build_item 1 (Some [1]) (BCreate true false true true true true [] [] None);
+           Build_item 24 None (BReadOnly (1,0))] = (inl ENoBid, demo_store).
+Proof. reflexivity. Qed.
+
+Example placeholder_example :
+  exists rs st', process demo_store demo_header
+     [Build_item 1 (Some [1]) (BCreate true false true true true true [7] [] None);
+      Build_item 10 (Some [2]) (BGet (Some 99));
+      Build_item 18 (Some [3]) (BActivate None)] = (inr rs, st') /\
+     map r_ok rs = [true; false; true] /\ option_map o_state (lookup 2 st') = Some S_ACTIVE.
+Proof. eexists. eexists. vm_compute. repeat split. Qed.
+
+(* What the property is about, expressed in the model: were a guard placed after the
+   mutation (no rollback in _process_batch), a later commit would publish the failed
+   item's change.  The faithful handlers do not do this (fail_no_trace). *)
+Theorem late_guard_would_leave_trace :
+  exists rs st', process_late demo_store demo_header demo_items = (inr rs, st') /\
+                 map r_ok rs = [false; true] /\
+                 option_map o_state (lookup 1 st') = Some S_ACTIVE /\
+                 option_map o_state (lookup 1 demo_store) = Some S_DEACT.
+Proof. exact late_guard_leaves_trace. Qed.
+Print Assumptions late_guard_would_leave_trace.
